@@ -107,4 +107,130 @@ def setZoneConfig (ctl : List Char) (idx : IdxArg) (lo hi : Bool × Dy) (localOv
       | _, .error e => .error e
       | .ok a, .ok b => fromAttrsDest vW ctl "000A".toList (i ++ fmtHex 2 bitmap ++ a ++ b)
 
+
+/-! ### system mode / time, DHW and zone modes, mixing-valve and TPI parameters, zone name -/
+
+/-- a `mode` argument: `None`, int or str -/
+inductive ModeArg where
+  | none
+  | int (n : Int)
+  | str (s : List Char)
+  deriving DecidableEq, Repr
+
+/-- `f"{n:02X}"` for any int -/
+def fmtX (w : Nat) (n : Int) : List Char :=
+  if n < 0 then '-' :: fmtHex (w - 1) n.natAbs else fmtHex w n.toNat
+
+/-- `mode if mode in MAP else MAP._hex(mode)` for an int/str mode (after the int -> "%02X" step) -/
+def normMode (fwd slugs names : List (String × String)) : ModeArg → Option (List Char) → Py (List Char)
+  | .none, dflt => match dflt with | some d => .ok d | none => .error .other
+  | .int n, _ => normMode fwd slugs names (.str (fmtX 2 n)) none
+  | .str t, _ =>
+    if inS (fwd.map (·.1)) t then .ok t
+    else match lookupS slugs t with
+      | some h => .ok h.toList
+      | none => match lookupS names t with
+        | some h => .ok h.toList
+        | none => .error .keyError
+termination_by m _ => match m with | .int _ => 1 | _ => 0
+
+def getSystemMode (ctl : List Char) : Py Frame := fromAttrsDest vRQ ctl "2E04".toList Gen.domFF.toList
+def getSystemTime (ctl : List Char) : Py Frame := fromAttrsDest vRQ ctl "313F".toList "00".toList
+def getScheduleVersion (ctl : List Char) : Py Frame := fromAttrsDest vRQ ctl "0006".toList "00".toList
+def getSystemLanguage (ctl : List Char) : Py Frame := fromAttrsDest vRQ ctl "0100".toList "00".toList
+def getDhwMode := getIndexed "1F41" ""
+def getMixValveParams := getIndexed "1030" ""
+
+/-- RQ|1100: the domain defaults to 00 for a relay (13:) and to FC otherwise -/
+def getTpiParams (dev : List Char) (dom : Option IdxArg) : Py Frame :=
+  let d : IdxArg := match dom with
+    | some x => x
+    | none => .str (if dev.take 2 = Gen.devTypeBDR'.toList then "00".toList else Gen.domFC.toList)
+  getIndexed "1100" "" dev d
+
+/-- W|2E04 -/
+def setSystemMode (ctl : List Char) (mode : ModeArg) (untl : Option DateTime) : Py Frame := do
+  let m ← normMode Gen.sysModeMap Gen.sysModeSlugs Gen.sysModeNames mode (some Gen.sysModeAuto.toList)
+  if untl.isSome && (m = Gen.sysModeAuto.toList || m = Gen.sysModeAutoWithReset.toList || m = Gen.sysModeHeatOff.toList) then
+    throw .cmdInvalid
+  fromAttrsDest vW ctl "2E04".toList (m ++ hexFromDtm untl false false ++ (if untl.isSome then "01".toList else "00".toList))
+
+/-- W|313F -/
+def setSystemTime (ctl : List Char) (d : DateTime) (isDst : Bool) : Py Frame :=
+  fromAttrsDest vW ctl "313F".toList ("0060".toList ++ hexFromDtm (some d) isDst true)
+
+/-- `_normalise_mode(mode, target, until, duration)`; `hasTarget` = the setpoint / active flag is not None -/
+def durTruthy : Option Int → Bool
+  | some d => d ≠ 0
+  | none => false
+
+def normaliseMode (mode : ModeArg) (hasTarget : Bool) (untl : Option DateTime) (duration : Option Int) : Py (List Char) :=
+  if mode = .none && !hasTarget then .error .cmdInvalid
+  else if untl.isSome && durTruthy duration then .error .cmdInvalid
+  else
+    let dflt := if untl.isSome then Gen.zonModeTEMPORARY else if durTruthy duration then Gen.zonModeCOUNTDOWN else Gen.zonModePERMANENT
+    match normMode Gen.zonModeMap Gen.zonModeSlugs Gen.zonModeNames mode (some dflt.toList) with
+    | .error e => .error e
+    | .ok m => if m ≠ Gen.zonModeFOLLOW.toList && !hasTarget then .error .cmdInvalid else .ok m
+
+/-- `_normalise_until(mode, _, until, duration)`: only refuses -/
+def normaliseUntil (m : List Char) (untl : Option DateTime) (duration : Option Int) : Py Unit :=
+  if m = Gen.zonModeTEMPORARY.toList then
+    if duration.isSome then .error .cmdInvalid else .ok ()
+  else if m = Gen.zonModeCOUNTDOWN.toList then
+    if duration.isNone then .error .cmdInvalid else if untl.isSome then .error .cmdInvalid else .ok ()
+  else if untl.isSome || duration.isSome then .error .cmdInvalid
+  else .ok ()
+
+def durHex : Option Int → List Char
+  | none => "FFFFFF".toList
+  | some d => fmtX 6 d
+
+def untilHex : Option DateTime → List Char
+  | none => []
+  | some d => hexFromDtm (some d) false false
+
+/-- W|1F41 (`active`: None / False / True) -/
+def setDhwMode (ctl : List Char) (dhwIdx : IdxArg) (mode : ModeArg) (active : Option Bool) (untl : Option DateTime)
+    (duration : Option Int) : Py Frame := do
+  let i ← checkIdx dhwIdx
+  let m ← normaliseMode mode active.isSome untl duration
+  let active := if m = Gen.zonModeFOLLOW.toList then none else active
+  normaliseUntil m untl duration
+  if m = Gen.zonModeTEMPORARY.toList && untl.isNone then throw .cmdInvalid   -- (a W|1F41 with mode 04 needs an until)
+  let a := match active with | none => "FF" | some true => "01" | some false => "00"
+  fromAttrsDest vW ctl "1F41".toList (i ++ a.toList ++ m ++ durHex duration ++ untilHex untl)
+
+/-- W|2349 -/
+def setZoneMode (ctl : List Char) (idx : IdxArg) (mode : ModeArg) (setpoint : FloatArg) (untl : Option DateTime)
+    (duration : Option Int) : Py Frame := do
+  let m ← normaliseMode mode setpoint.isSome untl duration
+  normaliseUntil m untl duration
+  let i ← checkIdx idx
+  let t ← hexFromTemp (tempOfArg setpoint)
+  fromAttrsDest vW ctl "2349".toList (i ++ t ++ m ++ durHex duration ++ untilHex untl)
+
+/-- W|1030 -/
+def setMixValveParams (ctl : List Char) (idx : IdxArg) (maxFlow minFlow valveRun pumpRun booleanCc : Int) : Py Frame := do
+  let i ← checkIdx idx
+  if ¬ (0 ≤ maxFlow ∧ maxFlow ≤ 99) then throw .cmdInvalid
+  if ¬ (0 ≤ minFlow ∧ minFlow ≤ 50) then throw .cmdInvalid
+  if ¬ (0 ≤ valveRun ∧ valveRun ≤ 240) then throw .cmdInvalid
+  if ¬ (0 ≤ pumpRun ∧ pumpRun ≤ 99) then throw .cmdInvalid
+  fromAttrsDest vW ctl "1030".toList (i ++ "C801".toList ++ fmtX 2 maxFlow ++ "C901".toList ++ fmtX 2 minFlow ++
+    "CA01".toList ++ fmtX 2 valveRun ++ "CB01".toList ++ fmtX 2 pumpRun ++ "CC01".toList ++ fmtX 2 booleanCc)
+
+/-- W|1100 for int arguments (`cycle_rate * 4`, `int(min_on_time * 4)`, ...): nothing is validated -/
+def setTpiParams (ctl : List Char) (dom : Option IdxArg) (cycleRate minOn minOff : Int) (pbw : FloatArg) : Py Frame := do
+  let i ← checkIdx (match dom with | some d => d | none => .str "00".toList)
+  let t ← hexFromTemp (tempOfArg pbw)
+  fromAttrsDest vW ctl "1100".toList (i ++ fmtX 2 (cycleRate * 4) ++ fmtX 2 (minOn * 4) ++ fmtX 2 (minOff * 4) ++ "00".toList ++ t ++ "01".toList)
+
+/-- W|0004: `f"{idx}00{hex_from_str(name)[:40]:0<40}"` -/
+def setZoneName (ctl : List Char) (idx : IdxArg) (name : List Char) : Py Frame := do
+  let i ← checkIdx idx
+  let h ← hexFromStr name
+  let h40 := h.take 40
+  fromAttrsDest vW ctl "0004".toList (i ++ "00".toList ++ h40 ++ List.replicate (40 - h40.length) '0')
+
 end Ramses
